@@ -63,6 +63,7 @@ VARIANTS = {
     "debug": ([], "-O0 -g", "cc", ""),
     "uchar": ([], "-O2 -funsigned-char", "cc", ""),      # plain char unsigned, as on ARM / PowerPC
     "ndebug": ([], "-O2 -DNDEBUG", "cc", ""),            # assert() compiled out, as in a release build
+    "extra-ndebug": ([], "-O2 -DEAV_EXTRA -DNDEBUG", "cc", ""),
     "mkdebug": (["debug"], None, "cc", ""),              # the Makefile's own `make debug` (CFLAGS += -g -D_DEBUG)
 }
 
@@ -275,7 +276,45 @@ def run_driver(ctx, exe, args, stdin_path=None, timeout=3000, env=None):
             fi.close()
 
 
-def replay(ctx, b, vectors_path, tag, stride=8, timeout=3000, wrap=False, valgrind=False):
+def latin1_locale(ctx):
+    """a single-byte (ISO-8859-1 like) locale compiled with localedef into the scratch directory: the sandbox ships only C / C.utf8,
+    and what <ctype.h> says about bytes >= 0x80 is part of the environment a library is called in.  Returns the environment for the
+    driver (LOCPATH, VERIF_LOCALE); the driver switches to it with setlocale and verifies that isalnum(0xE9) holds."""
+    if getattr(ctx, "locale_env", None):
+        return ctx.locale_env
+    d = ctx.path("locale", "x")[:-2]
+    os.makedirs(d, exist_ok=True)
+    u = lambda i: "<U%04X>" % i
+    rng = lambda a, b, skip=(): ";".join(u(i) for i in range(a, b + 1) if i not in skip)
+    prs = lambda a, b, dlt, skip=(): ";".join("(%s,%s)" % (u(i), u(i + dlt)) for i in range(a, b + 1) if i not in skip)
+    with open(os.path.join(d, "VERIF-8859-1"), "w") as f:
+        f.write("<code_set_name> VERIF-8859-1\n<comment_char> %\n<escape_char> /\n<mb_cur_min> 1\n<mb_cur_max> 1\nCHARMAP\n")
+        for i in range(256):
+            f.write("<U%04X> /x%02x\n" % (i, i))
+        f.write("END CHARMAP\n")
+    with open(os.path.join(d, "xx_XX.src"), "w") as f:
+        f.write("comment_char %\nescape_char /\nLC_CTYPE\n")
+        f.write("upper %s;%s\n" % (rng(65, 90), rng(192, 222, (215,))))
+        f.write("lower %s;%s\n" % (rng(97, 122), rng(223, 255, (247,))))
+        f.write("digit %s\n" % rng(48, 57))
+        f.write("space <U0020>;%s\n" % rng(9, 13))
+        f.write("cntrl %s;<U007F>;%s\n" % (rng(0, 31), rng(128, 159)))
+        f.write("punct %s;%s;%s;%s;%s;<U00D7>;<U00F7>\n" % (rng(33, 47), rng(58, 64), rng(91, 96), rng(123, 126), rng(161, 191)))
+        f.write("xdigit %s;%s;%s\n" % (rng(48, 57), rng(65, 70), rng(97, 102)))
+        f.write("blank <U0020>;<U0009>\n")
+        f.write("toupper %s;%s\n" % (prs(97, 122, -32), prs(224, 254, -32, (247,))))
+        f.write("tolower %s;%s\n" % (prs(65, 90, 32), prs(192, 222, 32, (215,))))
+        f.write("END LC_CTYPE\n")
+    os.makedirs(os.path.join(d, "loc"), exist_ok=True)
+    r = subprocess.run(["localedef", "-c", "-f", os.path.join(d, "VERIF-8859-1"), "-i", os.path.join(d, "xx_XX.src"), os.path.join(d, "loc", "xx_XX")],
+                       stdout=subprocess.PIPE, stderr=subprocess.STDOUT, text=True)
+    if not os.path.exists(os.path.join(d, "loc", "xx_XX", "LC_CTYPE")):
+        raise Infra("localedef could not build the single-byte locale: " + r.stdout[-800:])
+    ctx.locale_env = {"LOCPATH": os.path.join(d, "loc"), "VERIF_LOCALE": "xx_XX"}
+    return ctx.locale_env
+
+
+def replay(ctx, b, vectors_path, tag, stride=8, timeout=3000, wrap=False, valgrind=False, env=None, stack_kb=0):
     """feed TLC's vector lines to the replay driver linked with build b; returns dict(summary, viol, drift_path, crash)"""
     exe = compile_driver(ctx, b, "replay.c", wrap=wrap)
     od = ctx.path("replay", "%s-%s%s%s" % (tag, b["name"], "-wrap" if wrap else "", "-vg" if valgrind else ""), "x")[:-2]
@@ -284,7 +323,12 @@ def replay(ctx, b, vectors_path, tag, stride=8, timeout=3000, wrap=False, valgri
               "--undef-value-errors=yes", "--track-origins=no", exe, od, "0"]
         rc, so, se = run_driver(ctx, vg[0], vg[1:], stdin_path=vectors_path, timeout=timeout)
     else:
-        rc, so, se = run_driver(ctx, exe, [od, str(stride)], stdin_path=vectors_path, timeout=timeout)
+        if stack_kb:
+            real = compile_driver(ctx, b, "replay.c", wrap=wrap)
+            rc, so, se = run_driver(ctx, "/bin/sh", ["-c", 'ulimit -s %d; exec "$0" "$@"' % stack_kb, real, od, str(stride)],
+                                    stdin_path=vectors_path, timeout=timeout, env=env)
+        else:
+            rc, so, se = run_driver(ctx, exe, [od, str(stride)], stdin_path=vectors_path, timeout=timeout, env=env)
     res = {"outdir": od, "rc": rc, "stderr": se[-4000:], "viol": [], "summary": {}, "crash": None,
            "drift_path": os.path.join(od, "drift.ndjson"), "build": b["name"]}
     vp = os.path.join(od, "viol.ndjson")
